@@ -181,6 +181,11 @@ class BGP(protocol.Protocol):
         """
         buf = self._receive_buffer
 
+        if self.disconnected:
+            # we have closed this connection: whatever the peer sent after
+            # the message that made us close is not processed
+            return False
+
         if len(buf) < bgp_cons.HDR_LEN:
             # Every BGP message is at least 19 octets. Maybe the rest
             # hasn't arrived yet.
